@@ -302,15 +302,15 @@ func (e *env) apply(ctx sdk.Context, o opT) (ok bool, errText string) {
 }
 
 // ---- Coq printers ----
-func coqClaim(c *claimT, h uint64) string {
-	return fmt.Sprintf("(mkClaim %s %s %s %d %d %s %s)", emit.ZU(c.Nonce), emit.ZU(h), emit.ZU(c.Height), c.Compass, c.Rcv, emit.ZI(c.Amt), emit.Bool(c.Tok))
+func coqClaim(c *claimT, h int) string {
+	return fmt.Sprintf("(mkClaim %s %d %s %d %d %s %s)", emit.ZU(c.Nonce), h, emit.ZU(c.Height), c.Compass, c.Rcv, emit.ZI(c.Amt), emit.Bool(c.Tok))
 }
 
-func (e *env) coqOp(o opT) string {
+func (e *env) coqOp(o opT, rank map[uint64]int) string {
 	switch o.Kind {
 	case "vote":
 		h, _ := e.hashOf(o.Claim)
-		return fmt.Sprintf("Vote %s %s %s", emit.ZI(int64(o.V)), emit.Bool(o.V >= 0 && o.V < nVals), coqClaim(o.Claim, h))
+		return fmt.Sprintf("Vote %s %s %s", emit.ZI(int64(o.V)), emit.Bool(o.V >= 0 && o.V < nVals), coqClaim(o.Claim, rank[h]))
 	case "tally":
 		return "Tally"
 	case "prune":
@@ -331,14 +331,17 @@ func (e *env) coqOp(o opT) string {
 	panic("op")
 }
 
-func coqObs(ok bool, s snap) string {
+// coqObs prints the observation; the three lists are printed only when they differ from the
+// previous step's.  Claim hashes are printed as their rank among all hashes of the history
+// (order preserving, so the model's store order is the implementation's).
+func coqObs(ok bool, s snap, prev *snap, rank map[uint64]int) string {
 	var as, vn, bal []string
 	for _, a := range s.Atts {
 		var vs []string
 		for _, v := range a.Votes {
 			vs = append(vs, emit.ZI(int64(v)))
 		}
-		as = append(as, emit.Pair(emit.ZU(a.Nonce), emit.ZU(a.H), emit.List(vs), emit.Bool(a.Observed)))
+		as = append(as, emit.Pair(emit.ZU(a.Nonce), emit.ZI(int64(rank[a.H])), emit.List(vs), emit.Bool(a.Observed)))
 	}
 	for _, x := range s.VN {
 		vn = append(vn, emit.Pair(emit.ZU(x[0]), emit.ZU(x[1])))
@@ -346,7 +349,34 @@ func coqObs(ok bool, s snap) string {
 	for i, b := range s.Bal {
 		bal = append(bal, emit.Pair(emit.ZI(int64(i)), emit.ZI(b)))
 	}
-	return fmt.Sprintf("(mkObs %s %s %s %d %s %s %s)", emit.Bool(ok), emit.ZU(s.Last), emit.ZU(s.Height), s.Compass, emit.List(as), emit.List(vn), emit.List(bal))
+	sa, sv, sb := emit.List(as), emit.List(vn), emit.List(bal)
+	oa, ov, ob := "(Some "+sa+")", "(Some "+sv+")", "(Some "+sb+")"
+	if prev != nil {
+		var pas, pvn, pbal []string
+		for _, a := range prev.Atts {
+			var vs []string
+			for _, v := range a.Votes {
+				vs = append(vs, emit.ZI(int64(v)))
+			}
+			pas = append(pas, emit.Pair(emit.ZU(a.Nonce), emit.ZI(int64(rank[a.H])), emit.List(vs), emit.Bool(a.Observed)))
+		}
+		for _, x := range prev.VN {
+			pvn = append(pvn, emit.Pair(emit.ZU(x[0]), emit.ZU(x[1])))
+		}
+		for i, b := range prev.Bal {
+			pbal = append(pbal, emit.Pair(emit.ZI(int64(i)), emit.ZI(b)))
+		}
+		if emit.List(pas) == sa {
+			oa = "None"
+		}
+		if emit.List(pvn) == sv {
+			ov = "None"
+		}
+		if emit.List(pbal) == sb {
+			ob = "None"
+		}
+	}
+	return fmt.Sprintf("(mkObs %s %s %s %d %s %s %s)", emit.Bool(ok), emit.ZU(s.Last), emit.ZU(s.Height), s.Compass, oa, ov, ob)
 }
 
 // ---- the direct oracle (independent mirror; speaks about the REAL state only) ----
@@ -453,11 +483,30 @@ func (e *env) history(run *emit.Run, ops []opT, label string) {
 	or := newOracle()
 	var steps []string
 	accepted, rejected, fired := 0, 0, 0
+	// order-preserving ranks of the claim hashes of this history
+	var hs []uint64
+	rank := map[uint64]int{}
+	for _, o := range ops {
+		if o.Kind == "vote" {
+			h, _ := e.hashOf(o.Claim)
+			if _, ok := rank[h]; !ok {
+				rank[h] = 0
+				hs = append(hs, h)
+			}
+		}
+	}
+	sort.Slice(hs, func(i, j int) bool { return hs[i] < hs[j] })
+	for i, h := range hs {
+		rank[h] = i + 1
+	}
 	pre := e.observe(ctx)
+	var prevObs *snap
 	for i, o := range ops {
 		ok, errText := e.apply(ctx, o)
 		post := e.observe(ctx)
-		steps = append(steps, emit.Pair(e.coqOp(o), coqObs(ok, post)))
+		steps = append(steps, emit.Pair(e.coqOp(o, rank), coqObs(ok, post, prevObs, rank)))
+		pcopy := post
+		prevObs = &pcopy
 		run.Count("ops", o.Kind)
 		if o.Kind == "vote" || o.Kind == "tally" {
 			if ok {
@@ -674,6 +723,63 @@ func (e *env) structured(r *rand.Rand, hostile bool) []opT {
 	return ops
 }
 
+// boundary aims at the threshold itself: the first k voters hold exactly floor(66*T/100) + d of the
+// total T (d in -1, 0, +1); 0 and -1 must not fire, +1 must.
+func (e *env) boundary(r *rand.Rand) []opT {
+	totals := []int64{3, 5, 7, 10, 50, 99, 100, 101, 150, 200, 1000, 12345, int64(1 + r.Intn(1000000))}
+	T := totals[r.Intn(len(totals))]
+	q := 66 * T / 100
+	s := q + []int64{0, 0, 1, 1, -1}[r.Intn(5)]
+	if s < 0 {
+		s = 0
+	}
+	if s > T {
+		s = T
+	}
+	k := 1 + r.Intn(4)
+	split := func(x int64, parts int) []int64 {
+		out := make([]int64, parts)
+		for i := 0; i < parts-1; i++ {
+			out[i] = r.Int63n(x + 1)
+			x -= out[i]
+		}
+		out[parts-1] = x
+		return out
+	}
+	perm := r.Perm(nVals)
+	pw := make([]int64, nVals)
+	for i, x := range split(s, k) {
+		pw[perm[i]] = x
+	}
+	for i, x := range split(T-s, nVals-k) {
+		pw[perm[k+i]] = x
+	}
+	total := T
+	ops := []opT{{Kind: "powers", Pw: pw, Total: total}}
+	cl := variant(1, r.Intn(3), 0)
+	for i := 0; i < k; i++ {
+		c := *cl
+		ops = append(ops, opT{Kind: "vote", V: perm[i], Claim: &c})
+	}
+	ops = append(ops, opT{Kind: "tally"})
+	if r.Intn(3) == 0 { // power moves between vote and tally
+		ops = append(ops, genPowers(r), opT{Kind: "tally"})
+	}
+	for i := k; i < nVals; i++ {
+		c := *cl
+		if r.Intn(4) == 0 {
+			c = *variant(1, 3, 0)
+		}
+		ops = append(ops, opT{Kind: "vote", V: perm[i], Claim: &c}, opT{Kind: "tally"})
+	}
+	// a second nonce, voted by everybody who can
+	for i := 0; i < nVals; i++ {
+		ops = append(ops, opT{Kind: "vote", V: perm[i], Claim: variant(2, 0, 0)})
+	}
+	ops = append(ops, opT{Kind: "tally"})
+	return ops
+}
+
 // ---- corpus: minimised past failures, replayed first ----
 func corpusDir() string {
 	if d := os.Getenv("VERIF_CORPUS"); d != "" {
@@ -709,10 +815,11 @@ func TestCorr(t *testing.T) {
 		"(other amount/receiver, unregistered token, other height, height below the last observed one, other compass id), bursts of " +
 		"followers, attestationTally / pruneAttestations (hooks), power changes between vote and tally (equal, 34%, 66/34, 67%, zero powers, " +
 		"non-voting power in the total), UpdateValidatorNoncesToLatest, governance nonce override to 0 / cursor / cursor-1 / higher / >1000, " +
-		"chain activation with a new compass id; ~15% hostile histories (non-contiguous nonces, nonce 0, unknown orchestrators, re-votes). " +
+		"chain activation with a new compass id; ~15% threshold histories (k voters holding exactly floor(66T/100)-1, +0, +1 of T, T from 3 to 10^6); ~15% hostile histories (non-contiguous nonces, nonce 0, unknown orchestrators, re-votes). " +
 		"Every step: full projected store state compared with the model; direct oracle on the real state. " +
 		"non-trivial = history with an accepted vote, a rejected operation and at least one claim taking effect")
-	if os.Getenv("VERIF_SEARCH") != "" {
+	search := os.Getenv("VERIF_SEARCH") != ""
+	if search {
 		run.Extra("search", true)
 	}
 	e := setup(t)
@@ -727,8 +834,16 @@ func TestCorr(t *testing.T) {
 	}
 	i := 0
 	for run.NCases() < run.N {
-		hostile := run.Rng.Intn(100) < 15
-		e.history(run, e.structured(run.Rng, hostile), fmt.Sprintf("seed%d/%d", run.Seed, i))
+		x := run.Rng.Intn(100)
+		switch {
+		case x < 15 || (search && x < 40):
+			run.Count("kind", "boundary")
+			e.history(run, e.boundary(run.Rng), fmt.Sprintf("seed%d/%d/boundary", run.Seed, i))
+		default:
+			hostile := x >= 85
+			run.Count("kind", map[bool]string{true: "hostile", false: "structured"}[hostile])
+			e.history(run, e.structured(run.Rng, hostile), fmt.Sprintf("seed%d/%d", run.Seed, i))
+		}
 		i++
 	}
 	if err := run.Finish("Skyway.Oracle Corr.C02", "C02.case", "C02.check"); err != nil {
